@@ -1,13 +1,13 @@
 (* C16 — navigation inside a family is self-consistent. *)
 From Coq Require Import List Arith Bool String Permutation.
-From PyHam Require Import Tax Ortho Mapper Preds Nav.
-From PyHam.proofs Require Import PartitionFacts NavFacts.
+From PyHam Require Import Tax Ortho Loader Mapper Preds Nav Whole.
+From PyHam.proofs Require Import PartitionFacts NavFacts WholeFacts.
 Import ListNotations.
 
 (* every descendant gene once; the per-species clustering lists the same genes, each under its
    species; the HOG list and the level list describe the same nodes in the same order *)
 Theorem c16_views : forall t fo r h,
-  wfb t fo = true -> In r (fo_roots fo) -> In h (all_of r) ->
+  wfbc t fo = true -> In r (fo_roots fo) -> In h (all_of r) ->
   NoDup (desc_genes h) /\
   Permutation (flat_map (fun e => map (fun x => (x, fst e)) (snd e)) (genes_by_species h)) (gene_nodes h) /\
   map fst (gene_nodes h) = genes_of h /\
@@ -22,14 +22,14 @@ Print Assumptions c16_views.
 
 (* every member reports the same top-level HOG: the root of its family *)
 Theorem c16_top_level : forall t fo r x,
-  wfb t fo = true -> In r (fo_roots fo) -> In x (all_of r) -> top_level_of fo (href x) = Some r.
+  wfbc t fo = true -> In r (fo_roots fo) -> In x (all_of r) -> top_level_of fo (href x) = Some r.
 Proof. exact top_level_unique. Qed.
 Print Assumptions c16_top_level.
 
 (* asking a member x of family r for genome g returns exactly the family's members living in g;
    KeyError when there are none, or when the answer would contain the member itself *)
 Theorem c16_get_at_level : forall t fo r x g,
-  wfb t fo = true -> In r (fo_roots fo) -> In x (all_of r) -> is_gene r = false ->
+  wfbc t fo = true -> In r (fo_roots fo) -> In x (all_of r) -> is_gene r = false ->
   get_at_level fo (href x) g =
     (if match family_at r g with [] => true | _ => false end then Err KeyError
      else if mem_ref (href x) (family_at r g) then Err KeyError
@@ -42,11 +42,25 @@ Print Assumptions c16_get_at_level.
 
 (* the ancestral clustering maps each HOG of the genome to its genes; the gene sets are pairwise disjoint *)
 Theorem c16_clustering : forall t fo A,
-  wfb t fo = true ->
+  wfbc t fo = true ->
   ancestral_clustering fo A = map (fun ho => (href ho, genes_of ho)) (ANs A fo) /\
   NoDup (flat_map genes_of (ANs A fo)).
 Proof. intros t fo A Hwf. split; [apply (clustering_spec t); auto|apply (clustering_disjoint t); auto]. Qed.
 Print Assumptions c16_clustering.
+
+(* end to end: for every consistent input, every member of every family of the loaded forest is mapped back to
+   its family, and the ancestral clusterings are disjoint *)
+Theorem c16_every_consistent_input : forall t d hs,
+  consistent t d hs ->
+  exists l, load t d = Ok l /\
+    (forall r x, In r (fo_roots (forest_of l)) -> In x (all_of r) -> top_level_of (forest_of l) (href x) = Some r) /\
+    (forall A, NoDup (flat_map genes_of (ANs A (forest_of l)))).
+Proof.
+  intros t d hs Hc. destruct (consistent_forest t d hs Hc) as (l & El & Hw & _). exists l. split; [exact El|]. split.
+  - intros r x Hr Hx. exact (top_level_unique t (forest_of l) r x Hw Hr Hx).
+  - intros A. exact (clustering_disjoint t (forest_of l) A Hw).
+Qed.
+Print Assumptions c16_every_consistent_input.
 
 Definition m0 : hmeta := {| m_id := None; m_og := None; m_props := []; m_scores := []; m_synth := false |}.
 Definition tr : stree :=
@@ -57,7 +71,7 @@ Definition fam : hog :=
                  (None, HGene "c1" [1; 1])].
 Definition fo0 : forest := {| fo_tops := [fam]; fo_singles := [HGene "h9" [0; 0; 1]] |}.
 Example c16_nonvacuous :
-  wfb tr fo0 = true /\
+  wfbc tr fo0 = true /\
   get_at_level fo0 (RGene "c1") [0; 1] = Ok [RHog 2; RHog 3] /\
   get_at_level fo0 (RHog 2) [0; 1] = Err KeyError /\
   get_at_level fo0 (RHog 2) [0] = Err KeyError /\
